@@ -6,7 +6,12 @@
 (* The abstract CORE of a PIT / MPS / SuperNet wrapper is what a call can  *)
 (* change and what decides every later observation:                        *)
 (*   wt    .training of the wrapper                                        *)
-(*   st    .training of the inner (seed) model and its layers              *)
+(*   st    .training of the inner (seed) model and its layers; the two     *)
+(*         differ right after SuperNet(...) (the constructor leaves the    *)
+(*         layers in eval mode under a wrapper whose flag is True) and     *)
+(*         after nas.seed.train() / nas.seed.eval()                        *)
+(*   frz   the BatchNorm layers have been put in eval mode individually    *)
+(*         while the rest of the inner model is in training mode           *)
 (*   theta class of the sampled coefficients stored in the model           *)
 (*         "-" (PIT has none) | "soft" | "hard" (one-hot)                  *)
 (*   bn    number of BatchNorm statistics updates so far (saturating)      *)
@@ -24,7 +29,13 @@
 (*   [a |-> "summary"]  [a |-> "cost"]  [a |-> "getcost", n |-> "a"|"b"]   *)
 (*   [a |-> "setcs", c |-> "A"|"B"|"D"]    cost_specification = ...        *)
 (*   [a |-> "forward"]                     forward pass on a batch         *)
-(*   [a |-> "mode", v |-> BOOLEAN]         .train() / .eval()              *)
+(*   [a |-> "inspect"]                     str(), named_nas_parameters(),  *)
+(*                                         named_net_parameters(), (MPS)   *)
+(*                                         nas_parameters_summary()        *)
+(*   [a |-> "mode", v |-> BOOLEAN]         nas.train() / nas.eval()        *)
+(*   [a |-> "seedmode", v |-> BOOLEAN]     nas.seed.train() / .eval() only *)
+(*   [a |-> "freezebn"]                    .eval() on every BatchNorm layer*)
+(*                                         of the model (frozen statistics)*)
 (*   [a |-> "upd", o |-> option, v |-> value]  one option call (NOT an     *)
 (*                                         observer)                       *)
 (*                                                                         *)
@@ -36,6 +47,10 @@
 (*                    (F16), which for MPS also re-samples the persistent  *)
 (*                    theta_alpha buffers in eval mode (F35)               *)
 (*   impl = "f16"     pinned + the candidate repair of F16 (mode restored) *)
+(*   impl = "rootmode" ref, except that export() restores one flag for the *)
+(*                    whole inner model (frozen BatchNorm layers thaw)     *)
+(*   impl = "wrapmode" ref, except that export() restores the inner model  *)
+(*                    to the mode of the wrapper instead of its own        *)
 (*   impl = "optreset" ref, except that export() switches sampling back ON *)
 (*                    (disable := FALSE) instead of back to what it was    *)
 (*   impl = "costkeys" ref, except that cost / get_cost hand the LIVE      *)
@@ -47,7 +62,7 @@ EXTENDS Naturals, Sequences, FiniteSets
 
 Kinds       == {"pit", "mps", "sn"}
 Specs       == {"A", "B", "D"}
-ObserverOps == {"export", "summary", "cost", "getcost"}
+ObserverOps == {"export", "summary", "cost", "getcost", "inspect"}
 IsObserver(a) == a.a \in ObserverOps
 
 Min2(x, y) == IF x < y THEN x ELSE y
@@ -90,11 +105,13 @@ SamplerOf(kind, opt) ==
 \* P = [hasbn |-> BOOLEAN, maxbn |-> Nat]
 FwdCore(kind, P, c) ==
     [c EXCEPT !.theta = IF c.samp = "none" THEN c.theta ELSE Sampled(kind, c.opt.hard, c.st),
-              !.bn    = IF c.st /\ P.hasbn THEN Min2(c.bn + 1, P.maxbn) ELSE c.bn]
+              !.bn    = IF c.st /\ ~c.frz /\ P.hasbn THEN Min2(c.bn + 1, P.maxbn) ELSE c.bn]
 
 RefNext(kind, P, c, a) ==
     IF a.a = "forward" THEN FwdCore(kind, P, c)
-    ELSE IF a.a = "mode" THEN [c EXCEPT !.wt = a.v, !.st = a.v]
+    ELSE IF a.a = "mode" THEN [c EXCEPT !.wt = a.v, !.st = a.v, !.frz = FALSE]   \* nas.train() / nas.eval(): everything
+    ELSE IF a.a = "seedmode" THEN [c EXCEPT !.st = a.v, !.frz = FALSE]            \* nas.seed.train() / .eval(): inner model only
+    ELSE IF a.a = "freezebn" THEN [c EXCEPT !.frz = c.st]             \* every BatchNorm layer .eval() (statistics frozen)
     ELSE IF a.a = "upd" THEN LET o2 == SetOpt(c.opt, a.o, a.v) IN [c EXCEPT !.opt = o2, !.samp = SamplerOf(kind, o2)]
     ELSE c                                   \* observers and the cost-specification setter
 
@@ -114,6 +131,10 @@ ImplNext(impl, kind, P, c, a) ==
          THEN (IF a.a \in {"cost", "getcost"} THEN [c EXCEPT !.dk = c.dk \cup {"costkeys"}] ELSE RefNext(kind, P, c, a))
     ELSE IF impl = "optreset"
          THEN (IF a.a = "export" THEN OptResetExport(kind, c) ELSE RefNext(kind, P, c, a))
+    ELSE IF impl = "rootmode"      \* export() restores ONE flag for the whole inner model: individually frozen layers thaw
+         THEN (IF a.a = "export" THEN [c EXCEPT !.frz = FALSE] ELSE RefNext(kind, P, c, a))
+    ELSE IF impl = "wrapmode"      \* export() puts the inner model in the mode of the WRAPPER, not in the mode it had
+         THEN (IF a.a = "export" THEN [c EXCEPT !.st = c.wt] ELSE RefNext(kind, P, c, a))
     ELSE IF a.a = "export" THEN PinnedExport(kind, P, c, impl = "f16")
     ELSE IF a.a = "summary" /\ kind = "sn" /\ c.samp # "none"
          THEN [c EXCEPT !.theta = Sampled(kind, c.opt.hard, c.st)]   \* SuperNetCombiner.summary() re-sampled
